@@ -57,6 +57,10 @@ type c19Case struct {
 	// support. The version check is part of the core handler, innermost in the chain: the stages run as always, a stage
 	// that substitutes the message (the substitutes are 1.4) gets the core's normal answer, the original gets the rejection.
 	UnsupportedVersion bool `json:"request_version_unsupported,omitempty"`
+	// NilItemOnError (server batch-item chain): a stage that answers with an error returns (nil, err), the way Go functions
+	// usually do (a validation or authorisation stage that refuses an item has no response item to offer); otherwise it
+	// returns an item of its own next to the error
+	NilItemOnError bool `json:"item_stages_return_nil_with_an_error,omitempty"`
 }
 
 // registerStages hands the stages to an executor: one Use call per stage, or (SharedList) the first ones through a
@@ -404,8 +408,10 @@ func runServerItem(c c19Case, reqIdx int) ([]string, modelRes) {
 				return kept.keep(func() modelRes { return itemRes(r, err) })
 			})
 			kept.recheck(ctx, i)
-			// the batch-item API needs a non-nil item even with an error (the executor writes the failure into it)
 			out := &kmip.ResponseBatchItem{Operation: kmip.OperationActivate}
+			if r.err != "" && c.NilItemOnError {
+				return nil, errors.New(r.err)
+			}
 			if r.err != "" {
 				return out, errors.New(r.err)
 			}
@@ -699,6 +705,9 @@ func TestC19Chains(t *testing.T) {
 		}
 		if c.Chain == "server-message" {
 			c.UnsupportedVersion = rapid.IntRange(0, 3).Draw(rt, "unsupported-version") == 0
+		}
+		if c.Chain == "server-item" {
+			c.NilItemOnError = rapid.Bool().Draw(rt, "nil-item-on-error")
 		}
 		n := rapid.IntRange(0, 4).Draw(rt, "stages")
 		c.PreServe = -1
